@@ -1,0 +1,35 @@
+//go:build verif
+
+package filesystem
+
+// Contracts for the gvc verifier (/verif). Comment-only; never compiled into
+// a normal build.
+//
+// Property C20 (the cached index view equals the on-disk index), the part a
+// per-function contract can carry: what IndexStorage hands out and what it
+// keeps in its cache never share an Entry, so nothing a caller does to the
+// index it received (Worktree.Add and Index.SkipUnless update entries in
+// place) can change the cached copy; the cache is replaced only by SetIndex
+// (after a successful write) and by a decode of the file.
+
+//gvc:func copyIndex
+//gvc:  props C20
+//gvc:  theory int
+//gvc:  requires nn: idx != nil
+//gvc:  loop 1 invariant len: len(cp.Entries) == len(idx.Entries)
+//gvc:  loop 1 invariant rest: forall(a, it1, len(idx.Entries), cp.Entries[a] == nil)
+//gvc:  loop 1 invariant live: forall(a, 0, len(idx.Entries), allocated(cp.Entries[a]))
+//gvc:  loop 1 invariant sep: forall(a, 0, it1, forall(b, 0, len(idx.Entries), cp.Entries[a] == nil || cp.Entries[a] != idx.Entries[b]))
+//gvc:  loop 1 invariant nils: forall(a, 0, it1, (idx.Entries[a] == nil) == (cp.Entries[a] == nil))
+//gvc:  loop 1 invariant hash: forall(a, 0, it1, idx.Entries[a] != nil ==> cp.Entries[a].Hash == idx.Entries[a].Hash)
+//gvc:  loop 1 invariant meta: forall(a, 0, it1, idx.Entries[a] != nil ==> cp.Entries[a].Mode == idx.Entries[a].Mode && cp.Entries[a].Size == idx.Entries[a].Size && cp.Entries[a].Stage == idx.Entries[a].Stage && cp.Entries[a].SkipWorktree == idx.Entries[a].SkipWorktree && cp.Entries[a].IntentToAdd == idx.Entries[a].IntentToAdd)
+//gvc:  loop 1 invariant name: forall(a, 0, it1, idx.Entries[a] != nil ==> same_string(cp.Entries[a].Name, idx.Entries[a].Name))
+//gvc:  ensures fresh: result != nil && result != idx
+//gvc:  ensures len: len(result.Entries) == len(idx.Entries)
+//gvc:  ensures sep: forall(a, 0, len(idx.Entries), forall(b, 0, len(idx.Entries), result.Entries[a] == nil || result.Entries[a] != idx.Entries[b]))
+//gvc:  ensures nils: forall(a, 0, len(idx.Entries), (idx.Entries[a] == nil) == (result.Entries[a] == nil))
+//gvc:  ensures hash: forall(a, 0, len(idx.Entries), idx.Entries[a] != nil ==> result.Entries[a].Hash == idx.Entries[a].Hash)
+//gvc:  ensures meta: forall(a, 0, len(idx.Entries), idx.Entries[a] != nil ==> result.Entries[a].Mode == idx.Entries[a].Mode && result.Entries[a].Size == idx.Entries[a].Size && result.Entries[a].Stage == idx.Entries[a].Stage && result.Entries[a].SkipWorktree == idx.Entries[a].SkipWorktree && result.Entries[a].IntentToAdd == idx.Entries[a].IntentToAdd)
+//gvc:  ensures name: forall(a, 0, len(idx.Entries), idx.Entries[a] != nil ==> same_string(result.Entries[a].Name, idx.Entries[a].Name))
+//gvc:  ensures untouched: forall(a, 0, len(idx.Entries), idx.Entries[a] == old(idx.Entries[a]))
+//gvc:end
